@@ -13,8 +13,6 @@ Variable norm : point -> point.
 
 (* what the storage round trip and the user's callables may be assumed to do *)
 Hypothesis norm_wf : forall p, wf_point p -> wf_point (norm p).
-Definition rename (m : option str) (p : point) : point :=
-  match truthy m with Some name => set_meas p name | None => p end.
 (* points handed to insert: well formed, and storage keeps them as they are (always so for
    MemoryStorage; for CSVStorage exactly the reserved-free points, CodecP.csv_norm_id) *)
 Definition wf_insert (ps : list (option point)) (m : option str) : Prop :=
@@ -38,9 +36,6 @@ Qed.
 
 (* ---- insert ------------------------------------------------------------------------------- *)
 (* the points before the first element that is not a Point *)
-Fixpoint prefix_points (ps : list (option point)) : list point :=
-  match ps with Some p :: r => p :: prefix_points r | _ => [] end.
-Definition all_points (ps : list (option point)) : bool := forallb (fun o => match o with Some _ => true | None => false end) ps.
 
 Lemma last_map_Some (l : list Z) : forall d, l <> [] -> last (map Some l) None = Some (last l d).
 Proof.
